@@ -261,8 +261,35 @@ class Report:
             data = json.load(fh)
         return data.get("findings", []), data.get("fixed", [])
 
+    @staticmethod
+    def count_class(o) -> str:
+        """rule + the constant head of the detail (`op:+` -> `op`, `sense:<=` -> `sense`); details that are source text
+        fall into the rule's common class"""
+        import re as _re
+        m = _re.match(r"[a-z][a-z0-9_+\- ]{1,28}(?=$|[:@\[(|=])", o.detail or "")
+        return f"{o.rule}|{m.group(0).strip() if m else ''}"
+
+    def _baseline_counts(self):
+        path = os.path.join(os.path.dirname(__file__), "baseline_counts.json")
+        try:
+            with open(path) as fh:
+                return json.load(fh).get(self.prop, {})
+        except OSError:
+            return {}
+
     def finish(self, write: bool = True, raise_undecided: bool = True) -> int:
         self._shape_rule_scope()
+        # instance counts per (rule, kind of obligation) may not fall below those of the confirmed baseline: an obligation
+        # that is no longer generated is a clause nobody looked at on this tree, not a clause that holds
+        if not os.environ.get("OPTYX_NO_COUNT_GUARD"):
+            have = {}
+            for o in self.obs:
+                if not o.trivial:
+                    k = self.count_class(o)
+                    have[k] = have.get(k, 0) + 1
+            for k, n in sorted(self._baseline_counts().items()):
+                if have.get(k, 0) < n:
+                    self.undecided(f"{k.replace('|', ' [')}]: {have.get(k, 0)} instance(s) on this tree, {n} on the confirmed baseline -- the missing ones were not found (moved, merged or written in a form the rule does not read), so they were not checked")
         for rule, n in self.min_instances.items():
             got = self.count(rule)
             if got < n:
